@@ -16,6 +16,7 @@ def main():
     replay = None
     if "--replay" in sys.argv:
         replay = sys.argv[sys.argv.index("--replay") + 1]
+    os.environ["VERIF_CURRENT_TIER"] = tier
     core.ensure_env()
     seed = int(os.environ.get("VERIF_SEED", "20260926"))
     mod = importlib.import_module("vp.props.%s" % prop.lower())
